@@ -15,6 +15,15 @@ CLAIMED = {
  "C06": dict(cat="exploration", tech="deterministic simulation: real goroutines parked at verifYield hooks, seeded scheduler with choice tape, cross-schedule result comparison, quiescence-at-return and leak invariants",
    text="For each case (valid, invalid, parser error followed by lexer error, reader faults, arithmetic with several faults) the real ParseCommands/Eval/Expand run under parser-first, lexer-first and N seeded schedules (uniform, sticky, PCT, alternate) with select ties forced from the tape; the canonical dump of everything returned plus the reader offset must be identical across schedules, every lexer goroutine must have exited when the entry point returns, no reader operation may happen afterwards and nothing may stay blocked. Violations are minimised (generator tape, text, schedule tape) and written as replay files that reproduce the same event log.",
    note="Interleavings are explored at the granularity of the hook points (every native blocking operation); data races inside unsynchronised stretches are the race lane's business (see DESIGN.md §3.9). Sampling, not enumeration.", ref="DESIGN.md §5 C06"),
+ "C07": dict(cat="exploration", tech="deterministic simulation: call histories on one shared simulated RuneScanner (strict / multi-step UnreadRune) under seeded schedules, per-call consumption and separate-parse oracle",
+   text="Streams of 1-8 generated complete commands (multi-line compounds, here-documents, trailing comments, continuations, blank lines, missing final newline) are read by successive ParseCommands calls from one SimReader; after every call the reader offset must equal the generator's end offset of that command, the result must equal the parse of that command alone, blank lines give empty results, the number of calls equals the number of commands, and no reader operation may happen after a call returned (drain phase).",
+   note="The oracle depends on the generator's own notion of where a complete command ends (POSIX grammar); comment-only lines between commands are not generated because the property does not pin them. Sampling.", ref="DESIGN.md §5 C07"),
+ "C08": dict(cat="exploration", tech="deterministic simulation: here-document push/pop pipeline under extreme and seeded schedules, AST redirections vs generator ground truth with an independent unparser",
+   text="Generated commands with here-documents at every redirection site (compound commands, pipelines, lists, $( ), several per line, << and <<-, all delimiter quotings, adversarial body lines) are parsed under parser-first, lexer-first and seeded schedules; the here-document Redir nodes in source order must match the generator's list one to one: delimiter after quote removal, body byte for byte (own unparser), expansion nodes iff the delimiter was unquoted, tab-indented <<- delimiter recognised, identical under every schedule.",
+   note="Bodies are limited to forms the harness's unparser can reproduce exactly (no backslash-newline in expanding bodies); sampling.", ref="DESIGN.md §5 C08"),
+ "C10": dict(cat="fault_enumeration", tech="deterministic simulation with fault injection: complete single-fault enumeration over reader positions x fault kinds (persistent, transient, data+err, zero-progress, short reads) x schedules",
+   text="For every (program, reader variant) the complete set of single-fault positions is enumerated — every rune start for the RuneScanner, every byte offset for the io.Reader behind bufio, with persistent, transient, data+err, chunked and zero-progress behaviours — and each is run under both extreme schedules and a seeded one. Whenever the failure was delivered to the parser the returned error must be non-nil and errors.Is the injected error (io.ErrNoProgress for zero-progress), and the call must return.",
+   note="Programs and schedules are sampled; the single-fault space per program is enumerated completely. For io.Reader sources the obligation is restricted to faults inside the extent the fault-free run consumed (bufio read-ahead may swallow later faults unseen).", ref="DESIGN.md §5 C10"),
 }
 
 NA = {
